@@ -30,6 +30,7 @@ def main():
     prop, wt, name = sys.argv[1], sys.argv[2], sys.argv[3]
     demos, feats, miri = [], [], False
     release, examples = False, []
+    twin = None
     a = sys.argv[4:]
     i = 0
     while i < len(a):
@@ -43,6 +44,8 @@ def main():
             release = True
         elif a[i] == "--demo-example":
             examples.append(a[i + 1]); i += 1
+        elif a[i] == "--twin":
+            twin = a[i + 1]; i += 1  # the demo uses an API the change adds: "without" = the correct twin of the change
         i += 1
     seed = os.path.join(wt, "_seed")
     patch = os.path.join(seed, "patch.diff")
@@ -72,9 +75,15 @@ def main():
             cmd = (["cargo", "+nightly", "miri", "test"] if miri else tool + ["test", "--offline"]) + feats + (["--release"] if release else []) + ["--test", tname]
             rc1, o1 = sh(cmd, cwd=S, env={"CARGO_TARGET_DIR": tgt})
             sh(["git", "apply", "-R", patch], cwd=S)
+            if twin:
+                sh(["git", "apply", os.path.join(seed, twin)], cwd=S)
             rc2, o2 = sh(cmd, cwd=S, env={"CARGO_TARGET_DIR": tgt})
+            if twin:
+                sh(["git", "apply", "-R", os.path.join(seed, twin)], cwd=S)
             sh(["git", "apply", patch], cwd=S)
             demo_results[tname] = {"with_patch": "fails" if rc1 != 0 else "passes", "without_patch": "fails" if rc2 != 0 else "passes"}
+            if twin:
+                demo_results[tname]["baseline"] = "the correct twin of the change (the demo uses an API the change adds)"
             ran.append("%s: with patch %s, without %s" % (" ".join(cmd), demo_results[tname]["with_patch"], demo_results[tname]["without_patch"]))
             print(ran[-1])
             if rc1 == 0 or rc2 != 0:
@@ -88,7 +97,11 @@ def main():
             cmd = tool + ["build", "--offline"] + feats + ["--example", ename]
             rc1, o1 = sh(cmd, cwd=S, env={"CARGO_TARGET_DIR": tgt})
             sh(["git", "apply", "-R", patch], cwd=S)
+            if twin:
+                sh(["git", "apply", os.path.join(seed, twin)], cwd=S)
             rc2, o2 = sh(cmd, cwd=S, env={"CARGO_TARGET_DIR": tgt})
+            if twin:
+                sh(["git", "apply", "-R", os.path.join(seed, twin)], cwd=S)
             sh(["git", "apply", patch], cwd=S)
             demo_results[ename] = {"with_patch": "compiles" if rc1 == 0 else "rejected", "without_patch": "compiles" if rc2 == 0 else "rejected", "errors_without_patch": [l for l in o2.splitlines() if l.startswith("error[")][:4]}
             ran.append("%s: with patch %s, without %s %s" % (" ".join(cmd), demo_results[ename]["with_patch"], demo_results[ename]["without_patch"], demo_results[ename]["errors_without_patch"]))
@@ -116,6 +129,8 @@ def main():
             shutil.rmtree(dst)
         os.makedirs(dst)
         shutil.copy2(patch, os.path.join(dst, "patch.diff"))
+        if os.path.exists(os.path.join(seed, "twin.diff")):
+            shutil.copy2(os.path.join(seed, "twin.diff"), os.path.join(dst, "twin.diff"))
         if os.path.isdir(os.path.join(seed, "demo")):
             shutil.copytree(os.path.join(seed, "demo"), os.path.join(dst, "demo"))
         meta_txt = open(os.path.join(seed, "meta.txt")).read() if os.path.exists(os.path.join(seed, "meta.txt")) else ""
